@@ -584,7 +584,14 @@ def same(c, m, i):
         return False
     if i[0] == "err":
         return False
-    if i[1].get("property") is not None or i[1]["raw"]["leftovers"]:
+    prop_msg = i[1].get("property")
+    if prop_msg is not None and c.get("score_mode") == "full" and c["fmt"] == "tsv" and _only_ulp(i):
+        # text files: a full-mantissa score goes through decimal text twice (chunk file, result file) and pandas' default
+        # float parser is not correctly rounding: the score of a row may differ from the input from the 13th digit on
+        # (observed <= 7e-13 relative).  The property speaks about WHICH PSM's score a row carries, not about the last
+        # bits of a decimal round trip: accepted up to 1e-10 relative (a float32 cast is off by 6e-8); Parquet is exact.
+        prop_msg = None
+    if prop_msg is not None or i[1]["raw"]["leftovers"]:
         return False
     if c["ties"]:
         return m[1]["tie-canonical"] == i[1]["tie-canonical"]
@@ -791,11 +798,6 @@ def finding_key(c, m, i):
         return KEY_PQ_DICT if i is None or tuple(i) == ("err", "ValueError") else None
     if _dtype_split_spectrum(c):
         return KEY_KEY_DTYPE
-    if c.get("score_mode") == "full" and c["fmt"] == "tsv":
-        if i is None or m is None:
-            return KEY_TEXT_SCORE if i is None else (KEY_TEXT_SCORE if _only_ulp(i) else None)
-        if _only_ulp(i) and (c["ties"] or _files_equal(m, i)):
-            return KEY_TEXT_SCORE
     return None
 
 
